@@ -31,6 +31,8 @@ From WebP Require Lib.Arr Spec.PrefixCode Model.LosslessLib Model.Lossless Proof
 From WebP Require Model.BitReaderIO Proofs.BitReaderIO_laws Proofs.BitReaderIO_main.
 From WebP Require Model.LosslessIO Proofs.LosslessIO_laws Proofs.LosslessIO_refine Proofs.LosslessIO_main.
 From WebP Require Model.ReadImageIO Proofs.ReadImageIO_laws Proofs.ReadImageIO_refine Proofs.ReadImageIO_main.
+From WebP Require Spec.VP8 Model.Vp8Decode Model.ReadImage Proofs.ReadImage_container Proofs.ReadImage_lossy Proofs.VP8_decode_main
+  Proofs.VP8_decode_readimage Proofs.ReadImageIO_refine2 Proofs.ReadImageIO_closed.
 Import ListNotations.
 
 Theorem read_exact_any_schedule : forall s1 s2 r want, want <= length (remaining r) ->
@@ -415,3 +417,47 @@ Module GIO.
     /\ gio_summary (rio_eval (sched_const 7) (Some 33) gio_file 0) = (10, 0, 234, 33).
   Proof. vm_compute. repeat split; reflexivity. Qed.
 End GIO.
+
+(* ---------------- lossy stills without ALPH: the I/O-level glue equals the pure glue (fault-free), and a fault gives the I/O error or exactly the specification pixels ---------------- *)
+Module GIO2.
+  Import Lib.Res Spec.Container Proofs.ReadImage_container Proofs.ReadImage_lossy Proofs.VP8_decode_main.
+  Local Open Scope Z_scope.
+
+  Theorem vp8_header_io_refines_pure : forall d lim v s, Proofs.ContainerIO_refine.okstate d s -> 0 <= lim ->
+    Proofs.ReadImageIO_refine.tk lim s = Model.Vp8Parse.v_r v ->
+    Proofs.ReadImageIO_refine.RefOK d (Model.ReadImageIO.vp8_read_frame_header_io lim v s) (Model.Vp8Parse.read_frame_header v).
+  Proof. exact Proofs.ReadImageIO_refine2.vp8_header_refines. Qed.
+
+  Theorem vp8_decoder_io_refines_pure : forall d lim s, Proofs.ContainerIO_refine.okstate d s -> 0 <= lim ->
+    Proofs.ReadImageIO_refine.RefOK d (Model.ReadImageIO.vp8_decode_frame_io lim s)
+      (Model.Vp8Decode.decode_frame (Proofs.ReadImageIO_refine.tk lim s)).
+  Proof. exact Proofs.ReadImageIO_refine2.vp8_decode_frame_io_refines. Qed.
+
+  Theorem glue_lossy_no_fault : forall (dec : Model.Container.decoder) (buf : list Z) (s : Model.ContainerIO.rstate),
+    Proofs.ContainerIO_refine.okstate (Model.Container.d_data dec) s ->
+    (forall range, Model.Container.lookup Model.Container.KVP8 (Model.Container.d_chunks dec) = Some range ->
+                   0 <= fst range <= Model.Container.u64_max) ->
+    Model.Container.is_animated dec = false ->
+    Model.Container.lookup Model.Container.KVP8L (Model.Container.d_chunks dec) = None ->
+    (Model.Container.has_alpha dec = true -> Model.Container.lookup Model.Container.KALPH (Model.Container.d_chunks dec) = None) ->
+    Proofs.ContainerIO_refine.erase (fst (Model.ReadImageIO.read_image_m dec buf s))
+    = Proofs.ReadImageIO_refine2.outcome_res (Model.ReadImage.read_image Model.Vp8Decode.decode_frame dec buf).
+  Proof. exact Proofs.ReadImageIO_refine2.read_image_vp8_io_no_fault. Qed.
+
+  Theorem glue_lossy_error_or_spec_pixels : forall c payload w h yp up vp px,
+    wf c = true -> anim c = false -> image_vp8 c = Some payload -> dims c = (w, h) ->
+    Spec.VP8.decode payload = Some (w, h, yp, up, vp) -> decode_hyps_b payload = true ->
+    lossy_pixels c w h yp up vp = Some px -> alph_ok_for c w h ->
+    image_alph c = None -> len (serialize c) <= 18446744073709551615 ->
+    exists dec, Model.Container.new (serialize c) = Ok dec /\
+      forall (buf : list Z) (s : Model.ContainerIO.rstate),
+        len buf = buffer_size c ->
+        Model.ContainerIO.r_data s = serialize c -> Model.ContainerIO.r_fail_at s = None -> Model.ContainerIO.r_fail_eof s = false ->
+        0 <= Model.ContainerIO.r_pos s ->
+        fst (Model.ReadImageIO.read_image_io dec buf s) = (Model.ContainerIO.IOk tt, Some px)
+        /\ forall k, fst (Model.ReadImageIO.read_image_io dec buf (Proofs.ContainerIO_prims.set_fail s (Some k)))
+                       = (Model.ContainerIO.IErr Model.ContainerIO.XFault, None)
+                     \/ fst (Model.ReadImageIO.read_image_io dec buf (Proofs.ContainerIO_prims.set_fail s (Some k)))
+                       = (Model.ContainerIO.IOk tt, Some px).
+  Proof. exact Proofs.ReadImageIO_closed.lossy_still_fault_error_or_spec_pixels. Qed.
+End GIO2.
